@@ -45,7 +45,7 @@ def wire_colour(c, what):
     return [wire_int(x, what + ' component', 0, 65535) for x in c]
 
 
-def encode_events(events, machine_fault):
+def encode_events(events, machine_fault, timed_out=False):
     out = []
     for ev in events:
         kind = ev[0]
@@ -77,7 +77,8 @@ def encode_events(events, machine_fault):
             out.append({'e': 'nl'})
         else:
             raise Malformed('unknown event ' + repr(ev))
-    out.append({'e': 'end', 'how': 'fault' if machine_fault else 'done'})
+    # a run the harness had to stop: the specification decides whether the script should have ended by itself
+    out.append({'e': 'end', 'how': 'timeout' if timed_out else 'fault' if machine_fault else 'done'})
     return out
 
 
@@ -97,7 +98,7 @@ def execute(record):
     if res.run_exception is not None:
         return None, 'execution raised %r' % (res.run_exception,), res
     try:
-        return encode_events(res.events, res.machine_fault), None, res
+        return encode_events(res.events, res.machine_fault, res.timed_out), None, res
     except Malformed as ex:
         return None, str(ex), res
 
